@@ -513,6 +513,9 @@ pub fn min_len(data: &[u8], cap: usize, prefix: usize, modes: u8) -> Option<(usi
     // best final
     let mut best: Option<(usize, usize, Step)> = None; // (total len, from i, step)
     let has = |m: Mode| modes & m.bit() != 0;
+    // bit 0x40 of `modes`: the end-of-data forms that hand the last character(s) to ASCII count even if
+    // ASCII is not among the enabled modes (they belong to the latched mode's own end-of-data rule)
+    let fallback = has(Mode::Ascii) || modes & 0x40 != 0;
 
     // precompute c40/text values count
     let vals = |text: bool, ch: u8| c40_values(text, ch).len();
@@ -572,7 +575,7 @@ pub fn min_len(data: &[u8], cap: usize, prefix: usize, modes: u8) -> Option<(usi
                     // own encoder writes this form; the same shortcut for one character that would need a
                     // shift in this mode is decodable as well, but rule (d) of 5.2.5.2 speaks of one C40 value,
                     // so it is not counted as an encoding the crate has to find.)
-                    if body + 1 == cap && has(Mode::Ascii) && j + 3 == n && data[n - 2].is_ascii_digit() && data[n - 1].is_ascii_digit() {
+                    if body + 1 == cap && fallback && j + 3 == n && data[n - 2].is_ascii_digit() && data[n - 1].is_ascii_digit() {
                         upd(&mut best, cap, i, Step::FinalC40ImplicitPair(m, len + 2));
                     }
                 }
@@ -580,7 +583,7 @@ pub fn min_len(data: &[u8], cap: usize, prefix: usize, modes: u8) -> Option<(usi
                     if v % 3 == 2 && body + 2 == cap {
                         upd(&mut best, cap, i, Step::FinalC40Pad(m, len));
                     }
-                    if v % 3 == 1 && lastv == 1 && has(Mode::Ascii) {
+                    if v % 3 == 1 && lastv == 1 && fallback {
                         // one value (a single data char) remains (ASCII tail: only counted
                         // when ASCII is enabled, to stay conservative)
                         if body + 2 == cap {
@@ -613,14 +616,14 @@ pub fn min_len(data: &[u8], cap: usize, prefix: usize, modes: u8) -> Option<(usi
                     if j + 1 == n && body == cap {
                         upd(&mut best, body, i, Step::FinalX12Exact(len));
                     }
-                    if body + 1 == cap && has(Mode::Ascii) && j + 3 == n && data[n - 2].is_ascii_digit() && data[n - 1].is_ascii_digit() {
+                    if body + 1 == cap && fallback && j + 3 == n && data[n - 2].is_ascii_digit() && data[n - 1].is_ascii_digit() {
                         upd(&mut best, cap, i, Step::FinalX12ImplicitPair(len + 2));
                     }
                 }
             }
             // single trailing ASCII char without unlatch: segment of 3k native chars then one arbitrary 1-cw char at end
             // (handled: x12 len = 3k covering i..n-1, last char data[n-1] < 128)
-            if n >= 1 && i <= n - 1 && has(Mode::Ascii) {
+            if n >= 1 && i <= n - 1 && fallback {
                 let len = n - 1 - i;
                 if len % 3 == 0 && len > 0 && data[i..n - 1].iter().all(|c| x12_value(*c).is_some()) && data[n - 1] < 128 {
                     let body = base + 1 + 2 * (len / 3);
@@ -663,7 +666,7 @@ pub fn min_len(data: &[u8], cap: usize, prefix: usize, modes: u8) -> Option<(usi
                         upd(&mut best, body, i, Step::FinalEdifactAscii(len, 0));
                     }
                     // ascii tail without unlatch: remaining chars j+1..n in ASCII, <= 2 cw, and cap - body <= 2
-                    if body <= cap && cap - body <= 2 && n - (j + 1) <= 4 && j + 1 < n && has(Mode::Ascii) {
+                    if body <= cap && cap - body <= 2 && n - (j + 1) <= 4 && j + 1 < n && fallback {
                         let tail = &data[j + 1..];
                         let t = ascii_greedy(tail);
                         if body + t <= cap {
